@@ -63,7 +63,8 @@ def user_objects(ad, cfg):
     return dict(cfg, **out)
 
 
-DOCS = [["a", "b", "a", "c"], ["b", "b", "c"], ["c", "a"], ["a"], ["d", "a", "b", "a", "b"], []]
+# item 4 is the EMPTY document (generated histories range over items 1..4)
+DOCS = [["a", "b", "a", "c"], ["b", "b", "c"], ["c", "a"], [], ["d", "a", "b", "a", "b"], ["a"]]
 
 
 class Ngram(Adapter):
@@ -71,13 +72,19 @@ class Ngram(Adapter):
     configs = [dict(), dict(ngram_size=2), dict(ngram_size=2, ngram_behaviour="subgrams"), dict(min_occurrences=2),
                dict(ngram_size=2, mask_string="[M]", excluded_tokens={"b"}), dict(ngram_size=3, max_unique_tokens=4),
                dict(excluded_tokens={"d"}, excluded_token_regex="c"), dict(ngram_size=2, excluded_tokens={"c"}, excluded_token_regex="d"),
-               dict(ngram_size=3, ngram_behaviour="subgrams"), dict(ngram_size=4, ngram_behaviour="subgrams", min_occurrences=2)]
+               dict(ngram_size=3, ngram_behaviour="subgrams"), dict(ngram_size=4, ngram_behaviour="subgrams")]
 
     def make(self):
         return _cls("vectorizers.ngram_vectorizer", "NgramVectorizer")(**user_objects(self, self.cfg))
 
     def make_pool(self):
         return DOCS[:5]
+
+    def batch(self, ids, fitting=False):
+        # a fit batch made of the empty document only (or too poor for the pruning bounds) is a documented non-fit:
+        # fit batches are padded deterministically with the two long documents (rows of the requested items are kept)
+        docs = [self.pool[i - 1] for i in ids]
+        return (docs + [DOCS[0], DOCS[4]] if fitting else docs), {}
 
 
 class Skipgram(Adapter):
@@ -90,6 +97,8 @@ class Skipgram(Adapter):
 
     def make_pool(self):
         return DOCS[:5]
+
+    batch = Ngram.batch
 
 
 STRINGS = ["abababab", "aaaa", "abcabcabc", "ba", "", "a", "cabbage", "ababé中ab"]
@@ -136,7 +145,13 @@ class Histogram(Adapter):
         return _cls("vectorizers._vectorizers", "HistogramVectorizer")(**self.cfg)
 
     def make_pool(self):
-        return [list(s) for s in SEQS]
+        pool = [list(s) for s in SEQS]
+        pool[3] = []                 # item 4: an empty sequence (a zero row)
+        return pool
+
+    def batch(self, ids, fitting=False):
+        seqs = [self.pool[i - 1] for i in ids]
+        return (seqs + [list(SEQS[0]), list(SEQS[1])] if fitting else seqs), {}
 
 
 SEQS2 = [[1.0, 5.0, 2.0, 7.5], [2.0, 2.5, 9.0], [0.5, 3.0, 3.5, 4.0, 8.0], [7.5, 2.0, 5.0, 1.0], [6.0, 1.5, 3.0], [9.0, 2.0, 2.5]]
